@@ -48,6 +48,9 @@ CLAIMED = {
  "C03": ("guard-dominance + typestate constants + once-per-path ordering + who-may-sign call-site sets",
          "Decides, for every path through the consensus step functions, that signing happens only from the state machine, at most once per step, behind the step guards, the polka guard and the lock guard, and that validateBlock is a complete checklist; does not decide what the vote sets contain at run time.",
          "DESIGN.md §4 C03"),
+ "C20": ("guard-dominance on handshake acceptance and frame release, seal/increment/write ordering and once-per-path, operand-shape checks of transcript, key direction and packetisation, critical-section and ownership (who-may-write/call) rules",
+         "Decides that the handshake records and returns only a key whose signature over the transcript challenge verified (with the transcript absorbing both ephemeral keys and the DH secret first), that every seal is followed by a nonce increment before the write, that received plaintext and the receive nonce move only behind successful authentication and the size bound, that both directions run under their mutex, and that packetisation/reassembly carry exactly the bytes, mark EOF exactly when the remainder fits, respect capacity, start fresh buffers and are owned by their routines. Does not decide delivery semantics under interleavings or cipher security.",
+         "DESIGN.md §4 C20"),
 }
 
 PENDING = {}
